@@ -165,14 +165,14 @@ Proof.
     pose proof (caller_enter _ _ _ _ _ _ _ _ _ Hc HL0) as En.
     pose proof (caller_ackeff _ _ _ _ _ _ _ _ _ Hc HL0) as Ae.
     destruct (caller_closed _ _ _ _ _ _ _ _ _ Hc HL0 (Acl c0) (Arej c0)) as [Cc Cr].
-    destruct (post_shape _ _ _ _ H) as (P1 & P2 & P3 & P4 & P5 & P6 & P7).
+    destruct (post_shape _ _ _ _ _ H) as (P1 & P2 & P3 & P4 & P5 & P6 & P7).
     assert (Hcalls : forall x, calls s' x = if Z.eqb x c0 then k' else calls s x).
     { intros x. rewrite P1. apply calls_apply. }
     assert (Hent : forall x, x <> c0 -> calls s' x = calls s x).
     { intros x Hn. rewrite Hcalls. destruct (Z.eqb_spec x c0); congruence. }
     assert (Hk : calls s' c0 = k') by (rewrite Hcalls, Z.eqb_refl; auto).
     assert (Hused : forall m, used s m = true -> used s' m = true).
-    { intros m Hm. destruct e; try (inversion H; subst; rewrite used_apply; exact Hm).
+    { intros m Hm. destruct e; try (inversion H; subst; cbn; rewrite ?used_apply; exact Hm).
       destruct (used s m0); inversion H; subst. cbn. unfold upd. destruct (Z.eqb m m0); auto.
       rewrite used_apply; auto. }
     assert (Hf : fclosed s' = fclosed s) by (rewrite P5; destruct g; reflexivity).
@@ -263,7 +263,7 @@ Proof.
   - pose proof H as H0. unfold step in H. rewrite Ec in H.
     destruct (caller (maxr s) (fclosed s) (eclosed s) (isNone (ackm s (mid (calls s c0)))) c0 (calls s c0) e)
       as [[k' g]|] eqn:Hc; try discriminate H.
-    rewrite Gm in Hc. destruct (post_shape _ _ _ _ H) as (P1 & _). rewrite P1, calls_apply.
+    rewrite Gm in Hc. destruct (post_shape _ _ _ _ _ H) as (P1 & _). rewrite P1, calls_apply.
     destruct (Z.eqb_spec c c0); subst; [|apply soft_refl].
     apply (caller_soft _ _ _ _ _ _ _ _ _ Hc (Gl c0)).
   - apply (noncaller_step _ _ _ Ec H).
@@ -332,3 +332,116 @@ Qed.
 Lemma c24_distinct_ids : forall mx s c c', 1 <= mx -> reach mx s ->
   entered (calls s c) = true -> entered (calls s c') = true -> mid (calls s c) = mid (calls s c') -> c = c'.
 Proof. intros mx s c c' Hmx HR. apply (ai_du _ (reach_AI _ _ Hmx HR)). Qed.
+
+(* ---------- graceful Close: the wait group ---------- *)
+Record WG (s : state) : Prop := mkWG {
+  wg_in : forall c, In c (wgl s) <-> entered (calls s c) = true /\ is_returned (pc (calls s c)) = false;
+  wg_ret : closeret s = true -> eclosed s = true /\ wgl s = []
+}.
+
+Lemma WG_init : forall mx, WG (init mx).
+Proof. intros; constructor; cbn; [intros c; split; [tauto | intros [X _]; discriminate] | discriminate]. Qed.
+
+Lemma zremove_in : forall c x l, In x (zremove c l) <-> In x l /\ x <> c.
+Proof.
+  induction l as [|y t IH]; cbn; [tauto|].
+  destruct (Z.eqb_spec y c); subst; cbn; rewrite IH; split; intros; intuition congruence.
+Qed.
+
+Lemma caller_ret : forall mx fc ec af c k e k' g,
+  caller mx fc ec af c k e = Some (k', g) ->
+  match e with
+  | CReturn _ _ _ _ _ => is_returned (pc k') = true
+  | CEntered _ _ _ _ => ec = false /\ is_returned (pc k') = false
+  | _ => is_returned (pc k') = false /\ is_returned (pc k) = false
+  end.
+Proof. intros mx fc ec af c k e k' g H. cdes H; cbn; auto. Qed.
+
+Lemma noncaller_wg : forall s e s', ev_caller e = None -> step s e = Some s' ->
+  wgl s' = wgl s /\ (closeret s' = true -> closeret s = true \/ (eclosed s = true /\ wgl s = [])).
+Proof.
+  intros s e s' Ec H. unfold step in H. rewrite Ec in H.
+  destruct e; try discriminate Ec; cbv zeta in H;
+  try solve [brk H; inversion H; subst; clear H; cbn; auto].
+  destruct (eclosed s) eqn:E; cbn in H; try discriminate H.
+  destruct (wgl s) eqn:W; inversion H; subst; cbn; auto.
+Qed.
+
+Theorem step_WG : forall mx s e s', 1 <= mx -> GI mx s -> WG s -> step s e = Some s' -> WG s'.
+Proof.
+  intros mx s e s' Hmx HG [Win Wret] H. pose proof HG as [Gm Gl _ _ _].
+  destruct (ev_caller e) as [c0|] eqn:Ec.
+  - pose proof H as H0. unfold step in H. rewrite Ec in H.
+    destruct (caller (maxr s) (fclosed s) (eclosed s) (isNone (ackm s (mid (calls s c0)))) c0 (calls s c0) e)
+      as [[k' g]|] eqn:Hc; try discriminate H.
+    rewrite Gm in Hc. pose proof (Gl c0) as HL0.
+    pose proof (caller_enter _ _ _ _ _ _ _ _ _ Hc HL0) as En.
+    pose proof (caller_ret _ _ _ _ _ _ _ _ _ Hc) as Rt.
+    destruct (post_shape _ _ _ _ _ H) as (P1 & _ & _ & _ & _ & P6 & _).
+    assert (Hcalls : forall x, calls s' x = if Z.eqb x c0 then k' else calls s x).
+    { intros x. rewrite P1. apply calls_apply. }
+    assert (He : eclosed s' = eclosed s) by (rewrite P6; destruct g; reflexivity).
+    assert (Hw : wgl (apply_geff s c0 k' g) = wgl s /\ closeret (apply_geff s c0 k' g) = closeret s)
+      by (destruct g; split; reflexivity).
+    destruct Hw as [Hw1 Hw2].
+    assert (C0 : ev_caller e = Some c0) by exact Ec.
+    destruct e; cbn in C0; inversion C0; subst;
+    try (inversion H; subst; constructor;
+         [ intros x; rewrite Hcalls, Hw1; destruct (Z.eqb_spec x c0); subst; [|apply Win];
+           destruct En as [E1 E2]; destruct Rt as [R1 R2]; rewrite E1, R1; rewrite Win, R2; tauto
+         | rewrite Hw2, He, Hw1; exact Wret ]).
+    + (* CEntered *)
+      destruct (used s m); inversion H; subst. destruct En as (E1 & E2 & E3 & _). destruct Rt as [R0 R1].
+      constructor.
+      * intros x. rewrite Hcalls. cbn. rewrite Hw1. destruct (Z.eqb_spec x c0); subst.
+        -- rewrite E2, R1. split; auto.
+        -- rewrite <- Win. split; [intros [X | X]; congruence | auto].
+      * cbn. rewrite Hw2. intros X. destruct (Wret X) as [Y _]. congruence.
+    + (* CReturn *)
+      inversion H; subst. constructor.
+      * intros x. rewrite Hcalls. cbn. rewrite Hw1, zremove_in. destruct (Z.eqb_spec x c0); subst.
+        -- rewrite Rt. split; [tauto | intros [_ X]; discriminate].
+        -- rewrite Win. tauto.
+      * cbn. rewrite Hw1, Hw2. intros X. destruct (Wret X) as [Y Z]. rewrite Z. cbn. split; auto.
+        destruct g; cbn; auto.
+  - destruct (noncaller_step _ _ _ Ec H) as (N1 & _ & _ & N4 & _).
+    destruct (noncaller_wg _ _ _ Ec H) as (M1 & M2).
+    constructor.
+    + intros c. destruct (N1 c) as [(Hp & _ & Hen) _]. rewrite M1, Hp, Hen. apply Win.
+    + intros X. rewrite M1. destruct (M2 X) as [Y | [Y Z]]; [destruct (Wret Y); split; auto | split; auto].
+Qed.
+
+Theorem run_WG : forall mx tr s s', 1 <= mx -> GI mx s -> WG s -> run s tr = Some s' -> WG s'.
+Proof.
+  induction tr as [|e t IH]; intros s s' Hmx HG HW H; cbn in H.
+  - inversion H; subst; auto.
+  - destruct (step s e) as [s1|] eqn:E; try discriminate.
+    apply (IH s1 s' Hmx); auto; [eapply step_GI | eapply step_WG]; eauto.
+Qed.
+
+Lemma reach_WG : forall mx s, 1 <= mx -> reach mx s -> WG s.
+Proof. intros mx s Hmx [tr H]. eapply run_WG; eauto using GI_init, WG_init. Qed.
+
+(* C26: once Close / ForceClose has returned no call is pending, for good; every later Do is
+   rejected in its entry region, and a rejected call never transmitted anything *)
+Lemma c26_close : forall mx s, 1 <= mx -> reach mx s ->
+  (closeret s = true ->
+     eclosed s = true /\ wgl s = [] /\
+     forall c, entered (calls s c) = true -> is_returned (pc (calls s c)) = true) /\
+  (eclosed s = true -> forall c m q b, step s (CEntered c m q b) = None) /\
+  (forall c, pc (calls s c) = PReturned RRejected ->
+     entered (calls s c) = false /\ nsends (calls s c) = 0 /\ ndrops (calls s c) = 0).
+Proof.
+  intros mx s Hmx HR. pose proof (reach_GI _ _ Hmx HR) as HG. pose proof (reach_WG _ _ Hmx HR) as [Win Wret].
+  split; [|split].
+  - intros X. destruct (Wret X) as [Y Z]. repeat split; auto.
+    intros c E. destruct (is_returned (pc (calls s c))) eqn:R; auto.
+    assert (I : In c (wgl s)) by (apply Win; auto). rewrite Z in I. destruct I.
+  - intros X c m q b. unfold step. cbn [ev_caller]. cbv zeta. cbn [caller]. rewrite X.
+    destruct (pc (calls s c)); reflexivity.
+  - intros c X. pose proof (gi_li _ _ HG c) as HL.
+    assert (E : entered (calls s c) = false) by (apply (li_rejected _ _ HL); rewrite X; reflexivity).
+    repeat split; auto.
+    + apply (li_nosend _ _ HL E).
+    + rewrite (li_drops _ _ HL). unfold drops_of. rewrite X. reflexivity.
+Qed.
